@@ -915,10 +915,17 @@ def Bip85(inp, tab, ev):
     from .recorders import PrfTap
     prf = make_prf(inp.get("prf"))
     i = int.from_bytes(bytes(inp["ix"]["mag"]), "big") * (-1 if inp["ix"]["neg"] else 1)
+    i_ref = i
+    if inp["ix"].get("frac"):
+        # a non-integral number (the result of a '/' division, a Decimal): i + 1/2 in the given numeric type
+        import decimal
+        import fractions
+        i = {"float": float(i) + 0.5, "decimal": decimal.Decimal(i) + decimal.Decimal("0.5"),
+             "fraction": fractions.Fraction(2 * i + 1, 2)}[inp["ix"].get("type", "float")]
     p = inp["p"]
     app = inp["app"]
     rmaster = ref_node(tab, inp["master"])
-    wt = W.ref_bip85(tab, rmaster, app, p, i, prf, word_list)
+    wt = W.ref_bip85(tab, rmaster, app, p, i_ref, prf, word_list)        # tables for the neighbouring integer index
     ev["wordtab"] = wt or []
     NAMES = {"mnemonic": ("bip39_mnemonic", "word_count", 24), "hex": ("hex", "num_bytes", 32), "pwd": ("pwd", "pwd_len", 21),
              "wif": ("wif", None, 0), "xprv": ("xprv", None, 0)}
